@@ -544,7 +544,8 @@ def _places_in(o):
 def rules(ctx):
     from . import c15
     from . import c20
-    return [r06_1, r06_2, r06_3, r06_5, r06_6, r06_7, r06_8, r06_9, c15.r15_2, c20.r20_5]
+    return [r06_1, r06_2, r06_3, r06_5, r06_6, r06_7, r06_8, r06_9, c15.r15_2, c20.r20_5,
+            __import__('vjsx.rules.c10', fromlist=['x']).field_ratchet('a generated name remembered on the visitor can be used in a scope where its declaration is not')]
 
 
 EXPLANATION = (
